@@ -95,7 +95,13 @@ impl Check for C01Check {
         let mut or = rng.fork("ops");
         let knobs = Knobs::swarm(&mut kr);
         let size = (pr.usize(0, 3), pr.usize(0, 2), pr.usize(1, 3));
-        let project = proggen::gen_project(&mut pr, knobs, size);
+        let mut project = proggen::gen_project(&mut pr, knobs, size);
+        if pr.chance(1, 3) {
+            // OOP units (classes, interfaces, inherited methods, FB methods, references): budget faults land inside
+            // method calls as well
+            let nb = pr.usize(1, 3);
+            project["bulk"] = proggen::gen_bulk(&mut pr, nb);
+        }
         let n_ops = match tier {
             Tier::Quick => or.usize(3, 12),
             Tier::Thorough => or.usize(5, 30),
